@@ -253,9 +253,9 @@ Theorem C24_merged_filter_differs : forall w : window, window_ok w = true -> tra
 Proof. exact merged_filter_differs. Qed.
 Print Assumptions C24_merged_filter_differs.
 
-(* count() of a single-column query = len(list(q)) for every query, once COUNT uses the DISTINCT the query itself runs with
-   (count_default_follows_query, scanned from construct_sql_ast; with the original `COUNT(DISTINCT ..)` default see Findings/C24.v) *)
-Theorem C24_count_scalar : forall q : query (A:=Z), count_default_follows_query = true -> q_window q = no_window ->
+(* count() of a single-column query = len(list(q)) for every query: COUNT uses the DISTINCT the query itself runs with
+   (count_default_follows_query = true, scanned from construct_sql_ast) *)
+Theorem C24_count_scalar : forall q : query (A:=Z), q_window q = no_window ->
   q_aggregate ACount None q = Ok (py_aggregate ACount (q_list Z.eqb q)).
-Proof. exact count_scalar_list. Qed.
+Proof. exact count_scalar_list_now. Qed.
 Print Assumptions C24_count_scalar.
